@@ -320,9 +320,19 @@ def check_large_embedded_files(scratch):
     d = scratch / "big"
     d.mkdir()
     sizes = [0, 1, 2, 3, 4095, 4096, 4097, 65535, 65536, 65537, 1048575, 1048576, 1048577, 1048581, 3 * 1048576 + 1]
+    names = []
     for i, n in enumerate(sizes):
-        (d / ("f%d.bin" % i)).write_bytes(bytes((j * 7 + i) % 251 for j in range(n)))
-    (d / "r.md").write_text("# Big for 2\n\n    1 x\n\n" + "\n\n".join("![I%d](f%d.bin)" % (i, i) for i in range(len(sizes))) + "\n")
+        names.append("f%d.bin" % i)
+        (d / names[-1]).write_bytes(bytes((j * 7 + i) % 251 for j in range(n)))
+    # files of textual types whose bytes a text-mode reading would change (line-ending conventions, byte-order mark, bytes that are not UTF-8)
+    texts = [b"<svg xmlns='http://www.w3.org/2000/svg'>\r\n<text>a</text>\r\n</svg>\r\n", b"\xef\xbb\xbfa,b\rc,d\r", b"line\r\nline\n\rline\x1a\n",
+             b"caf\xe9 \xff\xfe\n", b"a\x0bb\x0cc\x85d\xe2\x80\xa8e\n", b""]
+    for ext in ("svg", "txt", "csv", "html", "css", "json", "xml", "js"):
+        for j, t in enumerate(texts):
+            names.append("t%d.%s" % (j, ext))
+            (d / names[-1]).write_bytes(t)
+    sizes = [len((d / nm).read_bytes()) for nm in names]
+    (d / "r.md").write_text("# Big for 2\n\n    1 x\n\n" + "\n\n".join("![I%d](%s)" % (i, nm) for i, nm in enumerate(names)) + "\n")
     try:
         page = generate_standalone_page(d / "r.md", embed_local_links=True)
     except Exception as e:  # noqa
@@ -330,14 +340,18 @@ def check_large_embedded_files(scratch):
     urls = re.findall(r'src="(data:[^"]*)"', page)
     if len(urls) != len(sizes):
         return [("C16:data-url-wrong", "%d data URLs for %d linked files" % (len(urls), len(sizes)))]
+    import html as html_mod
+    from urllib.parse import unquote_to_bytes
     for i, (n, u) in enumerate(zip(sizes, urls)):
+        head, _, payload = html_mod.unescape(u).partition(",")
         try:
-            data = base64.b64decode(u.split(",", 1)[1], validate=True)
+            # RFC 2397: base64 when the header says so, percent-encoded octets otherwise
+            data = base64.b64decode(payload, validate=True) if head.endswith(";base64") else unquote_to_bytes(payload)
         except Exception as e:  # noqa
-            out.append(("C16:data-url-wrong", "file of %d bytes: the data URL is not valid base64 (%s)" % (n, e)))
+            out.append(("C16:data-url-wrong", "file %s of %d bytes: the data URL cannot be decoded (%s)" % (names[i], n, e)))
             break
-        if data != (d / ("f%d.bin" % i)).read_bytes():
-            out.append(("C16:data-url-wrong", "file of %d bytes: the embedded copy has %d bytes / differs" % (n, len(data))))
+        if data != (d / names[i]).read_bytes():
+            out.append(("C16:data-url-wrong", "file %s of %d bytes: the embedded copy has %d bytes / differs" % (names[i], n, len(data))))
             break
     return out
 
